@@ -229,6 +229,10 @@ FlushCore(s) ==
        setC == {c \in Cs : c \notin udel /\ inAdded(c)}
        clrC == {c \in Cs : c \notin udel /\ ~DOrph /\ ~HasParentPess(s1, c) /\ delOfSaved(c)}
        pidC == [c \in Cs |-> IF c \in setC THEN (CHOOSE p \in psave : c \in HistAdded(s1, p)) ELSE IF c \in clrC THEN None ELSE pidB[c]]
+       \* named deviation NondetFk: a child that one flushed parent reports as added and another as removed-without-parent (possible only
+       \* after a remove event on a duplicate occurrence left hasparent False on a child that is still in a list, see MemberNotOrphan) gets
+       \* its FK set by one parent and cleared by the other in the iteration order of a Python set: the outcome is not specified
+       nondet == \E c \in Cs : c \in setC /\ c \in clrC
        touched == clrA \cup setB \cup setC \cup clrC
        warn == warn1 \/ warn2
        \* DML
@@ -254,6 +258,7 @@ FlushCore(s) ==
    IN IF uall = {} THEN [st |-> s1, ret |-> "ok", warn |-> FALSE, dml |-> {}]
       ELSE IF \E o \in udel : s1.life[o] = "pending"          \* a pending object registered for DELETE: "NULL primary key" FlushError
            THEN [st |-> Die(s1, "FlushError"), ret |-> "FlushError", warn |-> warn1, dml |-> {}]
+      ELSE IF nondet THEN [st |-> Die(s1, "ok"), ret |-> "ok", warn |-> warn, dml |-> {}]
       ELSE IF ~sound THEN [st |-> Die(s1, "IntegrityError"), ret |-> "IntegrityError", warn |-> warn, dml |-> {}]
       ELSE [st |-> s2, ret |-> "ok", warn |-> warn, dml |-> dml]
 Clean(s) == ~\E o \in Objs : s.life[o] = "pending" \/ o \in s.marked \/ (s.life[o] = "persistent" /\ o \in s.mod)
@@ -393,6 +398,10 @@ ReassociatedKept == [][(last'.a = "Flush" /\ ~st'.dead /\ DOrph) =>
 \* after any flush no row remains whose delete-orphan parent row is gone
 NoRowOfGoneParent == [][(last'.a = "Flush" /\ ~st'.dead /\ DOrph) =>
        \A c \in Cs : (st.dbc[c] \in Ps /\ st.dbc[c] \notin st'.dbp) => (st'.dbc[c] = "absent" \/ st'.dbc[c] \in st'.dbp)]_vars
+\* a child that sits in a collection (and points back at its owner) is not flagged as having lost that parent.  Violated by index /
+\* extended-slice assignment: the remove event fired for one of two occurrences keeps the backref (has_dupes) but still calls
+\* sethasparent(False); with delete-orphan the flush then DELETEs a child that never left the collection
+MemberNotOrphan == \A p \in Ps, c \in Cs : (c \in Range(st.coll[p]) /\ st.parent[c] = p) => st.hp[c] # "no"
 \* marked objects are persistent members
 MarkedArePersistent == \A o \in st.marked : st.life[o] = "persistent"
 TypeOK == /\ \A c \in Cs : st.parent[c] \in Ps \cup {None} /\ st.pid[c] \in Ps \cup {None} /\ st.dbc[c] \in Ps \cup {None, "absent"}
